@@ -308,6 +308,23 @@ func TestC01(t *testing.T) {
 					opName = fmt.Sprintf("Eval(%q, %s)", dst, e.String())
 					real := e.Build()
 					run = func() { addFrame(qf.Eval(dst, real), opName, m.ixGrp) }
+					// or an n-ary expression over the int columns, built from an argument list the caller keeps
+					var ints []interface{}
+					for _, c := range tab.Cols {
+						if c.Kind == hx.KInt {
+							ints = append(ints, types.ColumnName(c.Name))
+						}
+					}
+					if len(ints) > 0 && rapid.IntRange(0, 3).Draw(t, "naryargs") == 0 {
+						args := append(append([]interface{}{}, ints...), 3, ints[0], 1)
+						before := fmt.Sprint(args)
+						opName = fmt.Sprintf("Eval(%q, Expr(+, %v...))", dst, args)
+						run = func() {
+							addFrame(qf.Eval(dst, qframe.Expr("+", args...)), opName, m.ixGrp)
+							addFrame(qf.Eval(dst, qframe.Expr("-", args[1:]...)), opName+" (and - over the tail of the same list)", m.ixGrp)
+						}
+						argCheck = func() string { return diffStr("argument list of Expr", before, fmt.Sprint(args)) }
+					}
 				case op == 12 && usable: // WithRowNums
 					name := rapid.SampledFrom(append(tab.Names(), "rn")).Draw(t, "rn")
 					opName = fmt.Sprintf("WithRowNums(%q)", name)
